@@ -364,7 +364,10 @@ class GroupedType(BaseDataType):
         except KeyError:
             raise DiameterAvpError(f"`{avp_key}` key not defined")
 
-        self._avps.remove(item)
+        for index, avp in enumerate(self._avps):
+            if avp is item:
+                del self._avps[index]
+                break
         self.__dict__.pop(avp_key, None)
 
         self._data = b""
